@@ -27,7 +27,15 @@ static char vf_fatal_msg[256];
 static FILE *vf_out;
 static int vf_cur_more_prefix;      /* bytes of yytext carried over by yymore() */
 static int vf_act_ops, vf_act_io, vf_act_did_input, vf_act_did[16];   /* operations already performed in the current action */
-static int vf_pushed_back, vf_need_max; static long vf_n_overread_checks;
+static int vf_pushed_back, vf_need_max;
+static int vf_rej_newlines;          /* newlines in text given back by yyreject() so far in this execution */
+static int vf_frozen_line = 1;       /* scanners without %option yylineno must never change the line number */
+#ifdef VF_LINENO_FROZEN
+#define VF_EXPECTED_LINE vf_frozen_line
+#else
+#define VF_EXPECTED_LINE vf_R.lineno
+#endif
+static long vf_n_overread_checks;
 static int vf_bufsize;               /* 0: the scanner's default buffer */
 static const char *vf_expected_fatal; /* substring of a fatal message the model predicts, or NULL */
 
@@ -257,8 +265,13 @@ static void vf_act(int act, const char *text, long leng, int start, int lineno, 
 	if (start != vf_R.sc)
 		vf_mismatch("start condition", act, text, leng, start, lineno);
 #ifdef VF_CHECK_LINENO
-	if (lineno != vf_R.lineno)
-		vf_mismatch("yylineno", act, text, leng, start, lineno);
+	if (lineno != VF_EXPECTED_LINE) {
+		/* classify one specific history: the excess equals the newlines of the text given back by yyreject() */
+		int excess = lineno - VF_EXPECTED_LINE;
+		vf_R.lineno = VF_EXPECTED_LINE;
+		vf_mismatch(vf_rej_newlines > 0 && excess == vf_rej_newlines ? "yylineno: newlines of rejected text stay counted" : "yylineno",
+			act, text, leng, start, lineno);
+	}
 #endif
 	vf_n_tokens++;
 	vf_tok_in_exec++;
@@ -273,7 +286,7 @@ static void vf_act(int act, const char *text, long leng, int start, int lineno, 
 /* ---- action operations ---- */
 enum { VF_OP_NONE = 0, VF_OP_LESS = 1, VF_OP_UNPUT = 2, VF_OP_INPUT1 = 3, VF_OP_INPUT2 = 4, VF_OP_INPUT3 = 5,
        VF_OP_MORE = 6, VF_OP_REJECT = 7, VF_OP_BEGIN = 8, VF_OP_PUSH = 9, VF_OP_POP = 10, VF_OP_TOP = 11,
-       VF_OP_SETBOL = 12, VF_OP_RETURN = 13, VF_NOPS = 14 };
+       VF_OP_SETBOL = 12, VF_OP_RETURN = 13, VF_OP_SETLINE = 14, VF_NOPS = 16 };
 #ifndef VF_OPMASK
 #define VF_OPMASK 0
 #endif
@@ -355,7 +368,7 @@ static void vf_op_mismatch(const char *what, int exp, int obs)
 static void vf_check_line(int lineno)
 {
 #ifdef VF_CHECK_LINENO
-	if (lineno != vf_R.lineno) {
+	if (lineno != VF_EXPECTED_LINE) {
 		vf_mm.what = "yylineno after operation"; vf_mm.tokidx = vf_tok_in_exec;
 		vf_mm.exp_rule = vf_mm.obs_rule = vf_R.rule; vf_mm.exp_len = vf_mm.obs_len = 0;
 		vf_mm.exp_sc = vf_mm.obs_sc = vf_R.sc; vf_mm.exp_line = vf_R.lineno; vf_mm.obs_line = lineno;
@@ -404,7 +417,12 @@ static void vf_did_input(int c, int lineno)
 }
 
 static void vf_did_more(void) { vf_ref_more(&vf_R); vf_n_op_effect++; }
-static void vf_will_reject(void) { vf_ref_reject(&vf_R); vf_n_tokens--; vf_n_op_effect++; }
+static void vf_will_reject(void)
+{
+	int i;
+	for (i = 0; i < vf_R.sv_seg; i++) if (vf_R.buf[vf_R.head - vf_R.sv_seg + i] == '\n') vf_rej_newlines++;
+	vf_ref_reject(&vf_R); vf_n_tokens--; vf_n_op_effect++;
+}
 
 static void vf_did_begin(int sc, int now)
 {
@@ -435,13 +453,30 @@ static void vf_did_setbol(int v, int now)
 	if (!!now != !!v) vf_op_mismatch("yyatbol() after yysetbol", v, now);
 }
 static void vf_did_return(void) { }
+static int vf_arg_line(void)
+{
+	static const int vals[] = { 1, 7, 1000 };
+	return vals[vf_choose(3, VF_K_ARG)];
+}
+static void vf_did_setline(int v, int now)
+{
+	vf_R.lineno = v; vf_frozen_line = v;
+	if (now != v) vf_op_mismatch("yylineno read back after being set", v, now);
+	vf_n_op_effect++;
+}
 
 /* ---- API flavour glue ---- */
 #if defined(VF_API_NR)
 #define VF_LEX() yylex()
 #define VF_S0
 #define VF_S1
-static void vf_fresh(void) { yylex_destroy(); }
+static void vf_fresh(void)
+{
+	yylex_destroy();
+#ifdef VF_LINENO_FROZEN
+	yylineno = 1;    /* without %option yylineno the scanner never touches it, not even in yylex_destroy() */
+#endif
+}
 static void vf_finish(void) { yylex_destroy(); }
 #elif defined(VF_API_R) || defined(VF_API_C99)
 static yyscan_t vf_scanner;
@@ -496,9 +531,12 @@ static void vf_report(int st)
 static void vf_run_one(void)
 {
 	int st, r;
-	vf_in_pos = 0; vf_steps = 0; vf_tok_in_exec = 0; vf_nrules_in_exec = 0; vf_need_max = 0;
+	vf_in_pos = 0; vf_steps = 0; vf_tok_in_exec = 0; vf_nrules_in_exec = 0; vf_need_max = 0; vf_frozen_line = 1; vf_rej_newlines = 0;
 	vf_cur_sc = vf_g->sc; vf_cur_more_prefix = 0; vf_expected_fatal = 0; vf_expect_underflow = 0;
 	vf_ref_init(&vf_R, vf_in, vf_in_len, vf_g->sc);
+#ifdef VF_EXPECT_FATAL
+	vf_expected_fatal = VF_EXPECT_FATAL;   /* this harness runs inputs whose documented outcome is this fatal error */
+#endif
 	st = setjmp(vf_jmp);
 	if (st == 0) {
 		vf_in_yylex = 1;
@@ -669,11 +707,12 @@ int main(int argc, char **argv)
 	fprintf(vf_out, "{\"summary\":1,\"groups\":%d,\"inputs\":%ld,\"executions\":%ld,\"tokens\":%ld,\"mismatches\":%ld,"
 		"\"fatals\":%ld,\"horizons\":%ld,\"nontrivial\":%ld,\"reads\":%ld,\"eof_actions\":%ld,"
 		"\"ref_states\":%ld,\"ref_edges\":%ld,\"ref_edges_walked\":%ld,\"choice_points\":%ld,\"overflow\":%d,"
-		"\"bound\":%d,\"overread_checks\":%ld,\"expected_fatals\":%ld,\"op_effects\":%ld,\"ops\":[%ld,%ld,%ld,%ld,%ld,%ld,%ld,%ld,%ld,%ld,%ld,%ld,%ld,%ld]}\n",
+		"\"bound\":%d,\"overread_checks\":%ld,\"expected_fatals\":%ld,\"op_effects\":%ld,\"ops\":[",
 		ng, vf_n_inputs, vf_executions, vf_n_tokens, vf_n_mismatch, vf_n_fatal, vf_n_horizon, vf_n_nontrivial,
 		vf_n_reads, vf_n_eof, vf_states_total, vf_edges_live, vf_edges_seen_n, vf_choice_points, vf_overflow,
-		vf_bound_done, vf_n_overread_checks, vf_n_expected_fatal, vf_n_op_effect, vf_n_ops[0], vf_n_ops[1], vf_n_ops[2], vf_n_ops[3], vf_n_ops[4], vf_n_ops[5], vf_n_ops[6],
-		vf_n_ops[7], vf_n_ops[8], vf_n_ops[9], vf_n_ops[10], vf_n_ops[11], vf_n_ops[12], vf_n_ops[13]);
+		vf_bound_done, vf_n_overread_checks, vf_n_expected_fatal, vf_n_op_effect);
+	for (i = 0; i < VF_NOPS; i++) fprintf(vf_out, "%s%ld", i ? "," : "", vf_n_ops[i]);
+	fprintf(vf_out, "]}\n");
 	fclose(vf_out);
 	return 0;
 }
